@@ -579,3 +579,29 @@ Definition model_decode_value_depth_guard : bool := true.
    scalars / enums is refused like in a map of objects ([map_items]) *)
 Definition model_create_field_checks_oneof : bool := true.
 Definition model_leaf_map_dup_key_rejected : bool := true.
+
+(* scalar SetGoValue / AppendGoValue / map SetGoValue call checkValueKind before storing: a scalar
+   backed by a well-known message type whose conversion yields a non-message (google.protobuf.Duration
+   reflects as string) is an error.  The environment dump gives such a field an enum type without
+   options, which has exactly that behaviour. *)
+Definition model_value_kind_checked : bool := true.
+
+(* Every explicit panic(...) in the Go files the decoder runs through, reviewed: (file, function,
+   argument prefix, why the decoder cannot reach it).  The three panics the model does keep
+   ("foundKeys[0]", List.Append / Map.Set of an invalid Value) are runtime / protoreflect panics,
+   not explicit calls.  proofs/CodecDecProofs.v checks that every site the translator finds in the
+   source is in this list, so a new panic( has to be reviewed before the check is green again. *)
+Definition reviewed_panic_sites : list (string * string * string * string) := [
+  ("lib/j5reflect/property_set.go", "buildValue", "fmt.Sprintf(""Reflection Bug: field %s is not valid"", walkFie",
+   "Message.Mutable on a singular message-kind field returns a valid value (protoreflect contract); newPropSet has checked that every intermediate path field is of message kind");
+  ("lib/j5reflect/property_set.go", "copyReflect", "fmt.Sprintf(""CopyReflect: field %s not found in %s"", fd.Full",
+   "called from scalarGoFromReflect only (encoder direction)");
+  ("lib/j5reflect/protoval.go", "newProtoPair", """field is nil""",
+   "buildValue passes the last descriptor of a proto path that newPropSet resolved (an empty path is handled before)");
+  ("lib/j5reflect/protoval.go", "newProtoPair", """msg is nil/invalid""",
+   "buildValue returns an error when the property set has no message; walked messages come from Mutable");
+  ("lib/j5reflect/type_any.go", "buildField", "fmt.Sprintf(""unsupported Any type %s"", valueType)",
+   "the reflector creates an AnyField schema only for google.protobuf.Any and j5.types.any.v1.Any (wktSchema)");
+  ("lib/j5reflect/type_array.go", "newLeafArrayField", """list value is nil for leaf""",
+   "the list comes from Message.Mutable on a repeated field, which is never nil")
+].
